@@ -73,8 +73,8 @@ Definition aobs_ok (m o : aobs) : bool := (fst o =? NOT_OBSERVED) || aobs_eqb m 
 
 Definition check_nprobe (signer : rname) (filtered aggr_in : list cnsec) (p : nprobe) : bool :=
   let qe := canon (effective_qname (p_q p) (p_dname p)) in
-  code_ok (err_code (verify_nameerror_nsec_cur qe filtered)) (p_ne p) &&
-  code_ok (err_code (verify_nodata_nsec_cur qe (p_qtype p) filtered)) (p_nd p) &&
+  code_ok (err_code (verify_nameerror_nsec qe filtered)) (p_ne p) &&
+  code_ok (err_code (verify_nodata_nsec qe (p_qtype p) filtered)) (p_nd p) &&
   code_ok (err_code (verify_delegation_nsec (canon (p_q p)) filtered)) (p_dl p) &&
   aobs_ok (aresult_obs (aggr_nsec qe (p_qtype p) (p_qclass p) signer aggr_in)) (p_ag p) &&
   aobs_ok (aresult_obs (aggr_nsec qe (p_qtype p) (p_qclass p) signer aggr_in)) (p_agp p) &&
